@@ -28,13 +28,35 @@ DateOperand(o, today) ==
   ELSE LET y == IF o.y = 0 THEN YearOfDay(today) ELSE o.y IN
        IF ValidCivil(y, o.m, o.d) THEN DateOf(y, o.m, o.d) ELSE NotDate
 
+(***************************************************************************)
+(* A binding holds a value of any kind, and a later line may compute with   *)
+(* it (C03).  Specified for the two-operand expressions whose meaning the   *)
+(* other properties fix:  value op value  and  value op number.             *)
+(***************************************************************************)
+OperandOfVal(t) ==    \* a substituted token as an operand record of the kind-specific modules
+  IF t.k = "val" THEN t.v ELSE IF t.k = "num" THEN Num(LitValue(t)) ELSE Unspec
+MixedValue(calc, s) ==
+  IF Len(s) # 3 \/ s[2].k # "op" THEN Unspec
+  ELSE LET a == OperandOfVal(s[1])  b == OperandOfVal(s[3])  o == s[2].c IN
+       CASE a.k = "money" /\ b.k = "money" /\ o \in {"+", "-", "/"} -> MoneyArith(calc, [q |-> a.q, cur |-> a.cur], o, [q |-> b.q, cur |-> b.cur])
+         [] a.k = "money" /\ b.k = "num" /\ o \in {"*", "/"} -> MoneyArith(calc, [q |-> a.q, cur |-> a.cur], o, [q |-> b.q, cur |-> ""])
+         [] a.k = "unit" /\ b.k = "unit" /\ o \in {"+", "-", "/"} -> UnitArith([q |-> a.q, u |-> a.u], o, [q |-> b.q, u |-> b.u])
+         [] a.k = "unit" /\ b.k = "num" /\ o \in {"*", "/"} -> UnitArith([q |-> a.q, u |-> a.u], o, [q |-> b.q, u |-> ""])
+         [] a.k = "dur" /\ b.k = "dur" /\ o = "+" -> DurAdd(a, b)
+         [] a.k = "dur" /\ b.k = "dur" /\ o = "-" -> DurSub(a, b)
+         [] a.k \in {"num", "money"} /\ b.k = "pct" /\ o \in {"+", "-"} ->
+              SameKind([q |-> a.q, cur |-> IF a.k = "money" THEN a.cur ELSE ""], PctPhrase(o, b.q, a.q))
+         [] a.k = "time" /\ b.k = "dur" /\ o \in {"+", "-"} -> ShiftTime(a, o, b)
+         [] a.k = "date" /\ b.k = "dur" /\ o \in {"+", "-"} /\ b.s = 0 /\ b.d \in 0..29 -> ShiftDate(a, o, b.d, "day")
+         [] OTHER -> Unspec
+
 RECURSIVE LineMeaning(_, _)
 LineMeaning(ctx, line) ==
   CASE line.form = "arith"   -> [slot |-> ArithMeaning(line.toks), env |-> ctx.env]
     [] line.form = "blank"   -> [slot |-> Empty, env |-> ctx.env]
     [] line.form = "comment" -> [slot |-> Empty, env |-> ctx.env]
     [] line.form = "lit"     -> [slot |-> line.v, env |-> ctx.env]
-    [] line.form = "use"     -> [slot |-> UseMeaning(ctx.env, line.toks), env |-> ctx.env]
+    [] line.form = "use"     -> LET Mixed(s) == MixedValue(ctx.calc, s) IN [slot |-> UseMeaningWith(ctx.env, line.toks, Mixed), env |-> ctx.env]
     [] line.form = "fail"    -> [slot |-> Fails, env |-> ctx.env]
     [] line.form = "assign"  ->
          LET m == LineMeaning(ctx, line.rhs) IN
